@@ -75,6 +75,13 @@ func (g *Gate) Open() {
 	g.mu.Unlock()
 }
 
+// IsOpen reports whether the gate is open.
+func (g *Gate) IsOpen() bool {
+	g.mu.Lock()
+	defer g.mu.Unlock()
+	return g.open
+}
+
 // Shut makes later calls block again.
 func (g *Gate) Shut() {
 	g.mu.Lock()
